@@ -19,7 +19,7 @@ META = {
              'distinct_nontrivial = number of distinct abstract traces (sequence of (format, op, position class, crossing-EOF, offset-cache warm, subset) tuples) '
              'among runs with >= 3 state-touching steps',
         components={'real': ['mdtraj file classes (h5, xtc, trr, dcd, nc, mdcrd, xyz, lammpstrj, dtr) rebuilt from the working tree', 'PyTables', 'netCDF4', 'libc stdio', 'file system (tmpfs)'],
-                    'stub': ['scheduler (which handle steps next)'], 'not_run': ['arc (no seek/tell/len in this tree, no writer): not exercised']},
+                    'stub': ['scheduler (which handle steps next)'], 'fixtures': ['arc: read-only copies of two repository fixtures, sequential read(n)/read() only (seek, tell, len raise NotImplementedError in this tree)']},
         expected_probes=['read_crossing_eof', 'read_at_eof', 'seek_after_eof', 'offset_cache_built_mid_stream',
                          'second_handle_open_on_same_file', 'read_with_atom_indices'],
         level_text='Seeded exploration of handle histories: every explored history is checked step by step against a trivial cursor model; '
